@@ -18,7 +18,7 @@
    NOT proved here: the Chebyshev rate 2((sqrt k - 1)/(sqrt k + 1))^j (see design_notes/C08.md). *)
 From mathcomp Require Import all_ssreflect all_algebra.
 Require Import C08.Model C08.ProofsBase C08.ProofsResidual C08.ProofsColumns C08.ProofsGuards
-               C08.ProofsScaling C08.ProofsTmat C08.ProofsEnergy C08.ProofsConjugacy C08.ProofsExact C08.ProofsExample.
+               C08.ProofsScaling C08.ProofsTmat C08.ProofsEnergy C08.ProofsConjugacy C08.ProofsExact C08.ProofsExample C08.ProofsSwitch.
 Set Implicit Arguments.
 Unset Strict Implicit.
 Unset Printing Implicit Defensive.
@@ -403,6 +403,19 @@ move=> F S g u Am Mm Hp Hl Hpl He q hq col Hs Hm sf L T L0 Hreg lo hi Hlo Hhi y 
 have Hr : run_regular S g u col L.+1 by split; [exact: last_lt_states | move=> k0; rewrite ltnS; exact: Hreg].
 exact: (T_ritz Hp Hl Hpl He hq Hs Hm L0 Hr Hlo Hhi).
 Qed.
+
+(* 18. The update_tridiag switch (lines 326-327) is a decision about ALL tridiagonalised columns / batch members: one
+       loop body can turn it off only if it is not the first one and EVERY tridiagonalised column's newest off-diagonal
+       T[k-1,k] is below the threshold — so a column whose own recurrence has not broken down is never truncated because
+       another column's has (contrapositive: if some column's newest off-diagonal is >= the threshold, update_tridiag stays
+       on).  Any sizes, any number of columns; real closed field (the order matters).                            *)
+Theorem cg_tridiag_switch_all :
+  forall (F : rcfType) (C nc : nat) (tri_thresh : F) (n_tridiag nti k : nat) (s : cg_num F) (t : cg_tri F),
+  upd_ t -> upd_ (tri_step (FA F) C nc tri_thresh n_tridiag nti k s t) = false ->
+  (0 < k)%N /\
+  forall q, (q < size (tri_cols C nc n_tridiag))%N ->
+    mget (FA F) (nth [::] (tmat_ (tri_step (FA F) C nc tri_thresh n_tridiag nti k s t)) q) k.-1 k < tri_thresh.
+Proof. move=> F C nc th ntri nti k s t; exact: switch_all. Qed.
 
 (* the dense closure of a tensor argument (line 164) multiplies column j by the matrix of its batch member *)
 Theorem cg_dense_closure_linear :
